@@ -17,8 +17,13 @@ The proof is Kosaraju's argument (`Proofs/Scc.lean`): white-path specification o
 together with a finishing-order property (for every pushed `x` and every `y` it reaches, some vertex
 mutually reachable with `x` lies at or above `y` on the stack), then an invariant of the second pass
 (visited = union of the emitted classes, closed under predecessors).  The fuel handed to the recursion by
-the model is shown to suffice, so `Err.diverges` never occurs on a well-formed graph.  A real stack overflow
-of the recursive Rust functions on a very long path is outside the model.
+the model is shown to suffice on every `Graph` value (`scc_never_diverges`).  A real stack overflow of the
+recursive Rust functions on a very long path is outside the model (release build, 8 MiB stack: a one-way chain
+of 36 091 vertices passes, one of 55 000 aborts the process).
+
+The correspondence run (harness/src/c18.rs, Drv/C18.lean) additionally applies the verified checker
+`isSccPartition` (`isSccPartition_sound_complete`) to the model's and to the implementation's output on
+every well-formed case of at most 48 vertices; that part is testing, not proof.
 -/
 import Compass.Proofs.Scc
 
